@@ -27,6 +27,9 @@ CHECKS = {
  "C13": ("model_checking", "For every small document of the zoo languages (with and without external scanners) and EVERY list of up to 2-4 included ranges over all byte positions (plus beyond-EOF positions), the tree parsed with ranges is compared with the tree of the concatenated text under the offset map; leaves must not reach into excluded text; Tree/Parser::included_ranges read back; complete setter-validation box.",
          "Shape equality only when the concatenation is error-free. Known findings: ranges cutting multi-byte characters; ERROR-leaf extents at seams.",
          "bounded-exhaustive enumeration of (document, range list) with a concatenation reference", "DESIGN.md §2 C13"),
+ "C08": ("model_checking", "C08a: explicit-state BFS over copy/edit/reparse/walk/delete histories on up to 3 live handles with before/after snapshots (internal dump via hook H2) of every other handle. C08b: stateless exploration of ALL thread schedules up to a preemption bound for 2-3 real OS threads working on distinct copies, on the real C runtime under a baton-passing scheduler hooked (H1) at every reference-count atomic and plain ref_count read of shared nodes; each schedule replayed from a fresh parse and compared with sequential results, allocation balance and foreign/double frees.",
+         "Sequentially consistent interleavings at hooked points only; non-atomic read-modify-write and weak memory orderings are outside the scheduler (TSan pass in the thorough tier).",
+         "explicit-state BFS over handle histories + preemption-bounded exhaustive schedule enumeration (controlled scheduler on real code)", "DESIGN.md §2 C08"),
 }
 REASON_WIP = "check not built yet (work in progress; see DESIGN.md build order)"
 def main():
